@@ -31,6 +31,10 @@ fn mov_hook(ax: &mut Axecutor, _m: SM) -> Result<HookResult, Box<dyn std::error:
     Ok(HookResult::Unhandled)
 }
 
+fn idle_hook(_: &mut Axecutor, _: SM) -> Result<HookResult, Box<dyn std::error::Error>> {
+    Ok(HookResult::Unhandled)
+}
+
 struct Inputs {
     prog: proggen::Prog,
     /// which bytes of the 16 GPRs are written explicitly (RSP, RBX, R13 always completely): 0xff = reg_write_64,
@@ -44,7 +48,8 @@ struct Inputs {
 
 fn gen_inputs(rng: &mut Rng) -> Inputs {
     let with_syscalls = rng.below(2) == 0;
-    let opts = ProgOpts { reserved: vec![13], syscalls: with_syscalls, fault_tail: rng.below(3) == 0, unbalanced_ret: rng.below(4) == 0, ..Default::default() };
+    // (syscall instructions also appear in programs whose machines have no handler: the refusal and its text are observable)
+    let opts = ProgOpts { reserved: vec![13], syscalls: with_syscalls || rng.below(3) == 0, fault_tail: rng.below(3) == 0, unbalanced_ret: rng.below(4) == 0, ..Default::default() };
     let prog = proggen::gen_prog(rng, &opts);
     let mut written = [0xffu8; 16];
     for _ in 0..*rng.pick(&[0u64, 1, 1, 2, 2, 3, 5, 8]) {
@@ -88,6 +93,10 @@ fn build(inp: &Inputs) -> Option<Axecutor> {
     }
     if inp.with_hooks {
         catch(|| ax.hook_before_mnemonic_native(SM::Mov, &mov_hook)).ok()?.ok()?;
+        // further (do-nothing) hooks on other mnemonics: the hook table has several entries
+        for m in [SM::Add, SM::Xor, SM::Nop, SM::Cmp, SM::Lea, SM::Push] {
+            catch(|| ax.hook_after_mnemonic_native(m, &idle_hook)).ok()?.ok()?;
+        }
     }
     Some(ax)
 }
@@ -171,7 +180,14 @@ fn run(ax: &mut Axecutor, inp: &Inputs) -> (String, [u8; 16], [bool; 16], u64) {
             result = "truncated-at-undefined-register".into();
             break;
         }
-        let r = call(|| block_on(ax.step()));
+        // (the COMPLETE error text is observable: all lines, not the abbreviated form the other monitors keep)
+        let mut full_text: Option<String> = None;
+        let r = call(|| {
+            block_on(ax.step()).map_err(|e| {
+                full_text = catch(|| format!("{}", e)).ok();
+                e
+            })
+        });
         steps += 1;
         // SYSCALL architecturally clobbers RCX/R11; the emulator leaves them alone (OS interface, out of scope here),
         // so they do not become defined through it
@@ -199,7 +215,7 @@ fn run(ax: &mut Axecutor, inp: &Inputs) -> (String, [u8; 16], [bool; 16], u64) {
             }
             Call::Err { msg, .. } => {
                 // the complete error text is part of the observable behaviour
-                result = format!("error: {}", msg);
+                result = format!("error: {}", full_text.take().unwrap_or(msg));
                 break;
             }
             Call::Panic(p) => {
